@@ -3,6 +3,7 @@
 EXTENDS HitranCia, Json
 CONSTANTS QTemps,      \* query temperatures in K (those inside the file's master grid are exported)
           Export       \* TRUE: print one CIA vector per closed file
+MCTemp2 == <<200, 400>>
 MCTemp3 == <<200, 400, 1000>>
 MCTemp4 == <<200, 300, 600, 1000>>
 MCTemp5 == <<100, 200, 300, 600, 1000>>
@@ -10,6 +11,6 @@ RECURSIVE AscQ(_)
 AscQ(S) == IF S = {} THEN <<>> ELSE LET m == SetMin(S) IN <<m>> \o AscQ(S \ {m})
 Queries == LET qs == AscQ({K \in QTemps : QueryInside(K)}) IN [i \in DOMAIN qs |-> QueryOf(qs[i])]
 HEmit == (Export /\ HClosed) =>
-    PrintT(<<"CIA", ToJson([file |-> file, temps |-> TempK, master |-> HMasterSeq, bands |-> HBandSeq,
+    PrintT(<<"CIA", ToJson([file |-> [i \in DOMAIN file |-> <<file[i][1], file[i][2]>>], layouts |-> [i \in DOMAIN file |-> file[i][3]], temps |-> TempK, master |-> HMasterSeq, bands |-> HBandSeq,
                             table |-> PhysTable, queries |-> Queries])>>)
 =============================================================================
